@@ -236,7 +236,8 @@ pub fn configs(tier: Tier, prop: &str) -> Vec<(Cfg, Plan)> {
         Tier::Quick => {
             let focuses = [Focus::Delivery, Focus::ChurnSub, Focus::ChurnPub];
             for c in local_set(&focuses, 3) {
-                let d = depth_for(&c, prop, 2500.0, 4, 6);
+                let leaves = if prop == "C08" { 3000.0 } else { 12000.0 };
+                let d = depth_for(&c, prop, leaves, 4, 7);
                 out.push((c, Plan { tree_depth: d, finish_prefixes: false, frontier: None, split: 1 }));
             }
         }
